@@ -80,9 +80,12 @@ type Case struct {
 	Unregistered   bool     `json:"unregistered"`
 	FrontReturned  bool     `json:"servefront_returned"`
 	BackReturned   bool     `json:"serveback_returned"`
-	MidDial        string   `json:"mid_dial,omitempty"` // side-kick-middial: how the dial in flight ended
-	AcceptReturned bool     `json:"accept_returned"`    // the lost endpoint's Accept returned (endpoint side)
-	Skipped        bool     `json:"skipped,omitempty"`  // not run: the stream was stopped after repeated stranding
+	EP             []EPObs  `json:"ep,omitempty"`              // stream "ep": the endpoint-side threads
+	CloseMs        int      `json:"close_ms,omitempty"`        // how long Endpoint.Close took
+	SendAcceptLeft int      `json:"sendaccept_left,omitempty"` // goroutines still in sendAccept 3 s after Close returned
+	MidDial        string   `json:"mid_dial,omitempty"`        // side-kick-middial: how the dial in flight ended
+	AcceptReturned bool     `json:"accept_returned"`           // the lost endpoint's Accept returned (endpoint side)
+	Skipped        bool     `json:"skipped,omitempty"`         // not run: the stream was stopped after repeated stranding
 	Queued         int      `json:"queued_at_release,omitempty"`
 	Leak           []string `json:"leak,omitempty"`
 	Hang           string   `json:"hang,omitempty"`
@@ -597,6 +600,222 @@ func runTL(c *Case, tap *rpcx.LogTap) {
 
 var tlsCfg *httpstest.TLSConfigs
 
+// EPObs is one endpoint-side (or, for "dial", server-side) goroutine.
+type EPObs struct {
+	Kind     string `json:"kind"` // accept | close | dial
+	T        int    `json:"t"`
+	Returned bool   `json:"returned"`
+	Res      string `json:"res,omitempty"`
+	AfterMs  int    `json:"after_ms"` // when it returned, relative to the fault / to Close returning
+}
+
+var epScenarios = []string{"accept-drop-sever", "accept-drop-kick", "accept-drop-close", "close-vs-accept",
+	"sendaccept-close", "sendaccept-drain", "accept-drop-sever", "close-vs-accept"}
+
+// runEP drives Endpoint.Accept / Close / sendAccept explicitly.
+func runEP(c *Case) {
+	leakBase := rpcx.Goroutines(e2eFrames, []string{"Verif"})
+	var mu sync.Mutex
+	var clients []*sniproxy.VerifClient
+	srv := sniproxy.NewServer(&sniproxy.ServerConfig{})
+	srv.VerifSetEndpointCallback(func(name string, cl *sniproxy.VerifClient) {
+		mu.Lock()
+		clients = append(clients, cl)
+		mu.Unlock()
+	})
+	var backs sync.WaitGroup
+	ts := httptest.NewServer(aries.Func(func(ac *aries.C) error {
+		backs.Add(1)
+		defer backs.Done()
+		ac.User = ac.Path
+		return srv.ServeBack(ac)
+	}))
+	defer ts.Close()
+	dialEP := func() (*sniproxy.Endpoint, error) {
+		return sniproxy.Dial(context.Background(), &sniproxy.StaticRouter{Host: ts.Listener.Addr().String()},
+			&sniproxy.DialOption{Path: "/site", WithoutTLS: true})
+	}
+	ep, err := dialEP()
+	if err != nil {
+		c.Crash = "dial endpoint: " + err.Error()
+		return
+	}
+	for t0 := time.Now(); srv.VerifLookup("/site") == nil && time.Since(t0) < waitBound; {
+		time.Sleep(100 * time.Microsecond)
+	}
+	mu.Lock()
+	var first *sniproxy.VerifClient
+	if len(clients) > 0 {
+		first = clients[0]
+	}
+	mu.Unlock()
+	if first == nil {
+		c.Hang = "endpoint did not register"
+		return
+	}
+
+	type thr struct {
+		obs  EPObs
+		done chan struct{}
+		at   time.Time
+		conn net.Conn
+	}
+	var threads []*thr
+	spawn := func(kind string, f func() (string, net.Conn)) *thr {
+		th := &thr{obs: EPObs{Kind: kind, T: len(threads)}, done: make(chan struct{})}
+		threads = append(threads, th)
+		go func() {
+			res, conn := f()
+			th.obs.Res, th.conn, th.at = res, conn, time.Now()
+			close(th.done)
+		}()
+		return th
+	}
+	accept := func() *thr {
+		return spawn("accept", func() (string, net.Conn) {
+			conn, err := ep.Accept()
+			if err != nil {
+				return "err", nil
+			}
+			return "conn", conn
+		})
+	}
+	dial := func() *thr {
+		return spawn("dial", func() (string, net.Conn) {
+			ctx, cancel := context.WithTimeout(context.Background(), 3*waitBound)
+			defer cancel()
+			conn, err := first.Dial(ctx, "")
+			if err != nil {
+				return "err", nil
+			}
+			return "conn", conn
+		})
+	}
+	closer := func() *thr {
+		return spawn("close", func() (string, net.Conn) {
+			t0 := time.Now()
+			err := ep.Close()
+			c.CloseMs = int(time.Since(t0) / time.Millisecond)
+			if err != nil {
+				return "err:" + err.Error(), nil
+			}
+			return "ok", nil
+		})
+	}
+	settle := func() { time.Sleep(20 * time.Millisecond) } // let the goroutines reach their selects
+
+	k := c.Conns
+	if k < 1 {
+		k = 1
+	}
+	ref := time.Now() // observations are timed from the fault
+	var ep2 *sniproxy.Endpoint
+	switch c.Fault {
+	case "accept-drop-sever", "accept-drop-kick", "accept-drop-close":
+		for j := 0; j < k; j++ {
+			accept()
+		}
+		settle()
+		ref = time.Now()
+		switch c.Fault {
+		case "accept-drop-sever":
+			first.Sever()
+		case "accept-drop-kick":
+			ep2, _ = dialEP()
+		case "accept-drop-close":
+			go first.Close()
+		}
+	case "close-vs-accept":
+		for j := 0; j < k; j++ {
+			accept()
+		}
+		settle()
+		ref = time.Now()
+		closer()
+		closer()
+		accept() // an Accept issued while Close is under way
+	case "sendaccept-close", "sendaccept-drain":
+		// nobody accepts: 10 dials fill p.incoming, two more wait in sendAccept
+		var dials []*thr
+		for j := 0; j < 12; j++ {
+			dials = append(dials, dial())
+		}
+		deadline := time.Now().Add(2 * time.Second)
+		for time.Now().Before(deadline) {
+			n := 0
+			for _, d := range dials {
+				select {
+				case <-d.done:
+					n++
+				default:
+				}
+			}
+			if n >= 10 {
+				break
+			}
+			time.Sleep(time.Millisecond)
+		}
+		settle()
+		if c.Fault == "sendaccept-close" {
+			cl := closer()
+			select {
+			case <-cl.done:
+			case <-time.After(waitBound):
+			}
+			ref = time.Now() // the waiting dials are timed from the return of Close
+			// p.closed must release the waiting sendAccept goroutines at once
+			left := waitCount([]string{"shanhu.io/g/sniproxy.(*Endpoint).sendAccept"}, nil, 0, 3*time.Second)
+			c.SendAcceptLeft = len(left)
+		} else {
+			ref = time.Now()
+			for j := 0; j < 12; j++ {
+				accept()
+			}
+		}
+	}
+	end := time.Now().Add(waitBound)
+	for _, th := range threads {
+		select {
+		case <-th.done:
+			th.obs.Returned = true
+			if th.at.After(ref) {
+				th.obs.AfterMs = int(th.at.Sub(ref) / time.Millisecond)
+			}
+		case <-time.After(time.Until(end)):
+		}
+		c.EP = append(c.EP, th.obs)
+	}
+	// teardown
+	for _, th := range threads {
+		if th.conn != nil {
+			go th.conn.Close()
+		}
+	}
+	go ep.Close()
+	if ep2 != nil {
+		go ep2.Close()
+	}
+	done := make(chan struct{})
+	go func() { backs.Wait(); close(done) }()
+	select {
+	case <-done:
+		c.BackReturned = true
+	case <-time.After(waitBound):
+	}
+	left := waitCount(e2eFrames, []string{"Verif"}, len(leakBase), waitBound)
+	seen := map[string]int{}
+	for _, g := range leakBase {
+		seen[g]++
+	}
+	for _, g := range left {
+		if seen[g] > 0 {
+			seen[g]--
+		} else {
+			c.Leak = append(c.Leak, g)
+		}
+	}
+}
+
 // relay is a TCP relay that can be frozen: it then drops every byte in both
 // directions but keeps both sockets open (a black-holed network path: no
 // FIN, no RST, no data).
@@ -1031,6 +1250,13 @@ func strandKinds(c *Case) string {
 	if c.Crash != "" {
 		return ""
 	}
+	if c.Stream == "ep" {
+		for _, x := range c.EP {
+			add(!x.Returned, x.Kind)
+		}
+		add(len(c.Leak) > 0, "leak")
+		return strings.Join(ks, ",")
+	}
 	for _, f := range c.FrontClosed {
 		if !f && !strings.HasPrefix(c.Fault, "side-") {
 			add(true, "front")
@@ -1064,6 +1290,7 @@ func main() {
 	seed := flag.Uint64("seed", 1, "seed")
 	n := flag.Int("n", 120, "transport-level scenarios")
 	ne := flag.Int("e2e", 16, "end-to-end scenarios")
+	nep := flag.Int("ep", 8, "endpoint-side scenarios")
 	bound := flag.Int("bound", 10, "observation bound in seconds")
 	script := flag.String("script", "", "JSON file with a list of cases to run instead")
 	child := flag.Bool("child", false, "child mode")
@@ -1074,9 +1301,9 @@ func main() {
 	var scripted []Case
 	if *script != "" {
 		scripted = loadScript(*script)
-		*n, *ne = len(scripted), 0
+		*n, *ne, *nep = len(scripted), 0, 0
 	}
-	total := *n + *ne
+	total := *n + *ne + *nep
 	gen := func(i int) Case {
 		if scripted != nil {
 			x := scripted[i]
@@ -1084,6 +1311,10 @@ func main() {
 		}
 		if i < *n {
 			return genTL(*seed, i)
+		}
+		if i >= *n+*ne {
+			j := i - *n - *ne
+			return Case{I: i, Stream: "ep", Fault: epScenarios[j%len(epScenarios)], Conns: 1 + (j/len(epScenarios)+j)%4}
 		}
 		return genE2E(*seed, i, i-*n)
 	}
@@ -1109,9 +1340,12 @@ func main() {
 				out.Emit(&c)
 				continue
 			}
-			if c.Stream == "tl" {
+			switch c.Stream {
+			case "tl":
 				runTL(&c, tap)
-			} else {
+			case "ep":
+				runEP(&c)
+			default:
 				runE2E(&c)
 			}
 			if k := strandKinds(&c); k != "" {
@@ -1125,7 +1359,7 @@ func main() {
 		return
 	}
 	args := []string{"-seed", strconv.FormatUint(*seed, 10), "-n", strconv.Itoa(*n), "-e2e", strconv.Itoa(*ne),
-		"-bound", strconv.Itoa(*bound)}
+		"-bound", strconv.Itoa(*bound), "-ep", strconv.Itoa(*nep)}
 	if *script != "" {
 		args = append(args, "-script", *script)
 	}
